@@ -508,10 +508,20 @@ def run_czar(exe, case, scratch, timeout=30.0):
 # ------------------------------------------------------------------------------------------
 
 def opes_conf(case):
-    return ["colvar {", "  name v0", "  distanceZ {", "    main { atomNumbers 1 }", "    ref { dummyAtom (0,0,0) }",
-            "    axis (0,0,1)", "  }", "}",
-            "opes_metad {", "  name o", "  colvars v0", "  newHillFrequency %d" % case["pace"], "  barrier 10",
-            "  gaussianSigma 0.125", "  fixedGaussianSigma on", "  compressionThreshold 0", "  multipleReplicas on", "  sharedFreq %d" % case["pace"], "}"]
+    v = case.get("variant", "plain")
+    L = ["colvar {", "  name v0", "  distanceZ {", "    main { atomNumbers 1 }", "    ref { dummyAtom (0,0,0) }",
+         "    axis (0,0,1)", "  }", "}",
+         "opes_metad {", "  name o", "  colvars v0", "  newHillFrequency %d" % case["pace"], "  barrier 10"]
+    if v == "adaptive":
+        L += ["  adaptiveSigma on", "  adaptiveSigmaStride %d" % (2 * case["pace"]), "  gaussianSigmaMin 0.01"]
+    else:
+        L += ["  gaussianSigma 0.125"]
+    if v == "plain":
+        L += ["  fixedGaussianSigma on", "  compressionThreshold 0"]
+    elif v == "nlist":
+        L += ["  neighborList on", "  compressionThreshold 0"]
+    L += ["  multipleReplicas on", "  sharedFreq %d" % case["pace"], "}"]
+    return L
 
 
 def parse_opes(lines):
